@@ -9,7 +9,8 @@ from mc.core.runner import guarded, Result, pyasn1_site, exc_text
 from mc.model import constraints as C
 
 from pyasn1 import error as pyerr
-from pyasn1.type import univ, char, namedtype, constraint, tag
+from pyasn1.type import univ, char, namedtype, constraint, tag, opentype
+from pyasn1.codec.native import decoder as nat_dec
 from pyasn1.codec.ber import encoder as ber_enc, decoder as ber_dec
 from pyasn1.codec.cer import encoder as cer_enc
 from pyasn1.codec.der import encoder as der_enc
@@ -191,6 +192,7 @@ INT_OPS = [
     ('ctor_obj', lambda a, b: univ.Integer(univ.Integer(b), subtypeSpec=a.subtypeSpec)),
     ('subtype_more', lambda a, b: univ.Integer(b).subtype(subtypeSpec=a.subtypeSpec)),
     ('divmod0', lambda a, b: divmod(a, b)),
+    ('native_decode', lambda a, b: nat_dec.decode(b, asn1Spec=a)),
 ]
 UNARY = {'neg', 'pos', 'invert', 'abs'}
 WIDE_INT = univ.Integer().subtype(subtypeSpec=constraint.ValueRangeConstraint(-100, 100))
@@ -275,6 +277,7 @@ def part_b(tier, i, n, seed, R, idx0):
                     ops.append(('clone_obj', (lambda bv=bv: va.clone(cls(bv)))))
                     ops.append(('subtype_obj', (lambda bv=bv: va.subtype(cls(bv)))))
                     ops.append(('ctor_obj', (lambda bv=bv: cls(cls(bv), subtypeSpec=va.subtypeSpec))))
+                    ops.append(('native_decode', (lambda bv=bv: nat_dec.decode(bv, asn1Spec=va))))
                 for k in (0, 1, 2, 3):
                     ops.append(('mul', (lambda k=k: va * k)))
                     ops.append(('rmul', (lambda k=k: k * va)))
@@ -443,10 +446,19 @@ def part_c(tier, i, n, seed, R, idx0):
                             R.evaluations += 1
                             R.nontrivial((rcd, chain, tagged_at, 'neg', anc, des, v))
                             f3 = feats | {'negative_direction', 'anc:%d' % anc, 'des:%d' % des}
-                            for kind in ('field', 'member'):
+                            for kind in ('field', 'field_in_open_record', 'member'):
                                 if kind == 'field':
                                     box = univ.Sequence(componentType=namedtype.NamedTypes(namedtype.NamedType('f', types[des])))
                                     put = lambda: box.setComponentByName('f', val)
+                                    get = lambda: box.getComponentByName('f', default=None, instantiate=False)
+                                elif kind == 'field_in_open_record':
+                                    # the same field in a record that also has an open type field elsewhere
+                                    box = univ.Set(componentType=namedtype.NamedTypes(
+                                        namedtype.NamedType('id', univ.Integer().subtype(implicitTag=tag.Tag(tag.tagClassContext, tag.tagFormatSimple, 7))),
+                                        namedtype.NamedType('f', types[des]),
+                                        namedtype.NamedType('blob', univ.Any().subtype(implicitTag=tag.Tag(tag.tagClassContext, tag.tagFormatSimple, 8)),
+                                                            openType=opentype.OpenType('id', {1: univ.Integer()}))))
+                                    put = lambda: box.__setitem__('f', val)
                                     get = lambda: box.getComponentByName('f', default=None, instantiate=False)
                                 else:
                                     box = univ.SequenceOf(componentType=types[des])
@@ -597,6 +609,8 @@ def part_e(tier, i, n, seed, R, idx0):
                 ops.append(('clone_tuple:' + b, lambda va, b=b: va.clone(tuple(int(c) for c in b))))
                 ops.append(('ctor_obj:' + b, lambda va, b=b: univ.BitString(univ.BitString(b), subtypeSpec=va.subtypeSpec)))
                 ops.append(('decode:' + b, lambda va, b=b: ber_dec.decode(ber_enc.encode(univ.BitString(b)), asn1Spec=va)[0]))
+                ops.append(('native_decode:' + b, lambda va, b=b: nat_dec.decode(b, asn1Spec=va)))
+                ops.append(('native_decode_schema:' + b, lambda va, b=b: nat_dec.decode(b, asn1Spec=typ)))
                 ops.append(('decode_chunked:' + b, lambda va, b=b: ber_dec.decode(
                     ber_enc.encode(univ.BitString(b + '0' * 8), maxChunkSize=1, defMode=False), asn1Spec=va)[0]))
             for k in (0, 1, 2, 3):
